@@ -489,7 +489,8 @@ pub fn run(prop: &str, seed: u64, n: usize, outdir: &str, _corpus: Option<&str>)
             // description), not what the compiled connector answers: a connector that misreads its files then shows
             // up as a path that is not optimal for the declared dictionary
             let spec: Vec<Vec<i64>> = (0..gd.nright).map(|r| (0..gd.nleft).map(|l| bg.spec(r, l)).collect()).collect();
-            if spec.iter().flatten().all(|c| *c >= i16::MIN as i64 && *c <= i16::MAX as i64) {
+            let abs_fits = (0..gd.nright).all(|r| (0..gd.nleft).all(|l| bg.spec_abs(r, l) <= i16::MAX as i64));
+            if abs_fits && spec.iter().flatten().all(|c| *c >= i16::MIN as i64 && *c <= i16::MAX as i64) {
                 gd.matrix = spec.iter().map(|row| row.iter().map(|c| *c as i16).collect()).collect();
                 gd.declared_conn = true;
             }
@@ -588,6 +589,27 @@ pub fn run(prop: &str, seed: u64, n: usize, outdir: &str, _corpus: Option<&str>)
                 if has_user { d.reset_user_lexicon_from_reader(Some(us.as_bytes())) } else { Ok(d) }
             });
             let code = match &built { Outcome::Ok(_) => 0, Outcome::Err => 1, Outcome::Panic => 2 };
+            // the same files with one byte that is not UTF-8 inserted into file `which` (char.def, unk.def, matrix.def,
+            // lex.csv or the user lexicon): an error, never an accepted dictionary, never a panic
+            if rng.chance(1, 6) {
+                let mut raw: Vec<Vec<u8>> = files.iter().map(|t| t.clone().into_bytes()).collect();
+                if !raw[which].is_empty() {
+                    let mut k = rng.below(raw[which].len() as u64) as usize;
+                    while k < raw[which].len() && (raw[which][k] & 0xC0) == 0x80 { k += 1; }
+                    let k = k.min(raw[which].len());
+                    raw[which].insert(k, 0xFF);
+                    let has_u = gd.user.is_some() || which == 4;
+                    let r2 = raw.clone();
+                    let b2 = guarded(move || {
+                        let d = vibrato::SystemDictionaryBuilder::from_readers(&r2[3][..], &r2[2][..], &r2[0][..], &r2[1][..])?;
+                        if has_u { d.reset_user_lexicon_from_reader(Some(&r2[4][..])) } else { Ok(d) }
+                    });
+                    let c2 = match &b2 { Outcome::Ok(_) => 0, Outcome::Err => 1, Outcome::Panic => 2 };
+                    // (a base dictionary that is rejected anyway stays rejected)
+                    *dist.entry(format!("invalid_utf8_outcome_{}", c2)).or_default() += 1;
+                    sh.push_h(format!("seed:{}:bytes", sub), format!("(C10Invalid {} {} {})", sub, which, c2), format!("file #{} (0 char.def, 1 unk.def, 2 matrix.def, 3 lex.csv, 4 user.csv) with the byte 0xFF inserted at offset {}; files: {}", which, k, out.human));
+                }
+            }
             // full observation of the dictionary built from the edited texts: connection costs, option
             // outcome, every sentence with tokens / lattice / character infos (fresh worker each)
             let mut conn_t = "[]".to_string();
@@ -794,6 +816,13 @@ pub fn corrupt_text(rng: &mut Rng, s: &str) -> String {
             return lines.join("\n") + "\n";
         }
         7 if !lines.is_empty() => { let k = rng.below(lines.len() as u64) as usize; lines[k] = lines[k].split(|c: char| c == ' ' || c == ',').next().unwrap_or("").to_string(); return lines.join("\n") + "\n"; }
+        // the end of a range ("a..b") replaced by something that is not a number
+        7 if s.contains("..") && rng.chance(1, 2) => {
+            let k = s.find("..").unwrap() + 2;
+            let rest = &s[k..];
+            let stop = rest.find(|c: char| c == ' ' || c == '\n').unwrap_or(rest.len());
+            return format!("{}{}{}", &s[..k], rng.pick(&["0x005G", "0x", "", "-0x41", "0xＡ", "0x1FFFFFFFFFFFFFFFFF"][..]), &rest[stop..]);
+        }
         8 if rng.chance(1, 2) => { b.extend("\n,0,0,5,a\n,0,0,6,b\n".chars()); }   // two rows with an empty first cell at the very end
         8 => { b.extend("\n0x0..0xFFFFFFFFFFFFFFFF DEFAULT\n".chars()); }
         _ => { b.extend("\nZZ 1 1\n".chars()); }
